@@ -197,14 +197,51 @@ def r10c(ctx, rep):
                           'a later record of the same term can replace the first vote')
 
 
+def r10d(ctx, rep):
+    rep.rule('R10d', 'what recovery read is what the node starts with: in RaftNode::with_wal the term and the vote handed to with_state are '
+                     'RaftRecoveryState.current_term and .voted_for themselves — moved or copied, with no call (filter, map, take, '
+                     'unwrap_or, …) on the way. A vote that is dropped or rewritten between the log and memory (e.g. a recovered vote for '
+                     'the node itself) lets the restarted node vote again in the same term')
+    cr = ctx.crate('tensor_chain')
+    f = rep.require_fn('R10d', cr, 'tensor_chain::raft::RaftNode::with_wal')
+    if f is None:
+        return
+    defs = A.Defs(f)
+    ws = A.calls_to(f, 'tensor_chain::raft::RaftNode::with_state')
+    if not ws:
+        rep.violation('R10d', f, 'with_state', f.loc(), 'anchor-missing: with_wal no longer builds the node through with_state')
+        return
+    RS = 'tensor_chain::raft_wal::RaftRecoveryState.'
+    c = ws[0]
+    found = {}
+    for k, a in enumerate(c.args):
+        if a[0] == 'k':
+            continue
+        flds, params, callees = lib.provenance_fields(f, defs, a)
+        for nm in ('current_term', 'voted_for'):
+            if RS + nm in flds:
+                found[nm] = (k, sorted(x for x in callees if not re.search(r'RaftRecoveryState::from_wal$|RaftWal.*::open\w*$|Try>::branch$|from_residual$', x)))
+    for nm in ('current_term', 'voted_for'):
+        if nm not in found:
+            rep.violation('R10d', f, 'lost-' + nm, f.loc(c.line), 'the recovered %s does not reach with_state' % nm)
+        elif found[nm][1]:
+            rep.violation('R10d', f, 'rewritten-' + nm, f.loc(c.line),
+                          'the recovered %s passes through %s before it reaches with_state: what the node persisted is not what it '
+                          'restarts with' % (nm, ', '.join(lib.short(x) for x in found[nm][1])))
+        else:
+            rep.holds('R10d', f, nm, 'argument %d of with_state is the recovered field itself' % found[nm][0])
+
+
 def run(ctx, rep):
     raft_rules.r01a(ctx, rep)
     r10a(ctx, rep)
     r10c(ctx, rep)
+    r10d(ctx, rep)
     wal_rules.r02b(ctx, rep, ['RaftWal'])
     wal_rules.r02e(ctx, rep, ['RaftWal'])
     wal_rules.r02f(ctx, rep, ['RaftWal'])
     wal_rules.r02g(ctx, rep, ['RaftWal'])
+    wal_rules.r02h(ctx, rep, ['RaftWal'])
     r10b_candidates(ctx, rep)
     if ctx.tier == 'thorough':
         witness.run(rep, 'R01a', ['RaftPersistentStateIsPrivate', 'RaftWalWriterIsPrivate'])
